@@ -43,7 +43,7 @@ func init() {
 	})
 }
 
-var coderLens = []int{2, 4, 14, 16, 18, 30, 32, 34, 46, 48, 62, 64, 66, 96, 100, 126, 128, 130, 1000, 2000, 4098}
+var coderLens = []int{2, 4, 14, 16, 18, 30, 32, 34, 46, 48, 62, 64, 66, 96, 100, 126, 128, 130, 1000, 2000, 4098, 4100, 8196, 12292, 16388}
 
 func genShards(r *Run, n, length int) [][]byte {
 	g := prng{s: r.T.Draw64(0, "shard-seed")}
@@ -53,7 +53,7 @@ func genShards(r *Run, n, length int) [][]byte {
 		out[i] = make([]byte, length)
 		kind := 0
 		if structured {
-			kind = int(g.next() % 5)
+			kind = int(g.next() % 7)
 		}
 		switch kind {
 		case 0:
@@ -71,6 +71,18 @@ func genShards(r *Run, n, length int) [][]byte {
 					out[i][k] = lo
 				} else {
 					out[i][k] = hi
+				}
+			}
+		case 5, 6: // (data,) a long run of zeros, a short non-zero trailer at the very end
+			if kind == 6 {
+				for k := 0; k < length/2; k++ {
+					out[i][k] = byte(g.next())
+				}
+			}
+			tl := 2 * (1 + int(g.next()%7))
+			for k := length - tl; k < length; k++ {
+				if k >= 0 {
+					out[i][k] = byte(1 + g.next()%255)
 				}
 			}
 		default: // runs of words and random stretches
@@ -138,7 +150,7 @@ func coderSchedules(r *Run) {
 	big := false
 	if t.Bool(1, 25, "long-shards") {
 		// shards far beyond any cache-blocking threshold
-		length = []int{65536, 65538, 70000, 131072, 204800, 1 << 20}[t.Draw(6, "long-len")]
+		length = []int{65536, 65538, 65540, 70000, 131072, 204800, 1 << 20}[t.Draw(7, "long-len")]
 		d = 1 + t.Draw(4, "long-d")
 		p = 1 + t.Draw(3, "long-p")
 		big = true
@@ -153,7 +165,12 @@ func coderSchedules(r *Run) {
 		r.Probe("data-shards>=200")
 	}
 	units := (length + 15) / 16
-	g := 1 + t.Draw(units+3, "goroutines")
+	gmax := units + 3
+	if gmax > 260 {
+		// (driving a thousand workers is slow and adds nothing over a few hundred)
+		gmax = 260
+	}
+	g := 1 + t.Draw(gmax, "goroutines")
 	if manyTiny {
 		g = 2 + t.Draw(15, "many-g")
 	}
